@@ -389,6 +389,12 @@ def input_digest(input):
     return digest(input) if isinstance(input, np.ndarray) else None
 
 
+def alpha_snapshot(alpha):
+    """An array-valued step size (prox.Stack hands views of one to its members, the
+    primal-dual solver takes arrays) is an argument like the input: kept as passed."""
+    return alpha.copy() if isinstance(alpha, np.ndarray) else None
+
+
 def prox_is_minimiser(self, alpha, input, result, OLD):
     cnt = STATE.count
     cnt["Prox.__call__:contract"] += 1
@@ -396,6 +402,13 @@ def prox_is_minimiser(self, alpha, input, result, OLD):
     if not isinstance(input, np.ndarray):
         return True
     try:
+        if OLD.alpha0 is not None:
+            cnt["Prox.__call__:array-alpha"] += 1
+            if not np.array_equal(alpha, OLD.alpha0, equal_nan=True):
+                STATE.event("C02", "prox-alpha-mutated",
+                            "%s modified the step-size array it was called with (max change "
+                            "%.3g)" % (name, float(np.max(np.abs(alpha - OLD.alpha0)))))
+                alpha = OLD.alpha0           # decide the result against the step size passed
         if OLD.hin is not None and digest(input) != OLD.hin:
             STATE.event("C02", "prox-input-mutated", "%s modified its input" % name)
         for k, v, h in OLD.caps:
@@ -454,7 +467,8 @@ def install():
     orig = SP.Prox.__call__
     contracted = icontract.snapshot(input_digest, name="hin")(
         icontract.snapshot(param_digests, name="caps")(
-            icontract.ensure(prox_is_minimiser, error=ProxContractBroken)(orig)))
+            icontract.snapshot(alpha_snapshot, name="alpha0")(
+                icontract.ensure(prox_is_minimiser, error=ProxContractBroken)(orig))))
 
     def __call__(self, alpha, input):
         STATE.count["Prox.__call__"] += 1
